@@ -31,6 +31,8 @@ type scenario struct {
 	Queue     int         `json:"queue"` // bytes
 	Producers [][]arrival `json:"producers"`
 	Reconf    []reconf    `json:"reconf"`
+	SinkStallEvery int    `json:"sinkStallEvery,omitempty"` // the NIC behind the filter blocks for SinkStallNs on every k-th datagram it is handed
+	SinkStallNs    int64  `json:"sinkStallNs,omitempty"`
 	CloseAfterNs int64    `json:"closeAfterNs"` // idle time before Close (0: close while datagrams may still be queued)
 }
 
@@ -94,6 +96,10 @@ func gen(r *harn.Rng, tier string) interface{} {
 		}
 		sc.Producers = append(sc.Producers, as)
 	}
+	if r.Bool(0.15) {
+		sc.SinkStallEvery = r.Pick(1, 2, 3, 5)
+		sc.SinkStallNs = int64(r.Pick(1, 50, 150, 250, 400)) * 1e6
+	}
 	sc.CloseAfterNs = int64(r.Pick(0, 0, 1000, 1000000, 1000000000))
 	if big {
 		// the filter forwards on arrivals only: a trickle of small datagrams afterwards lets the
@@ -149,6 +155,10 @@ func run(env *simrt.Env, sci interface{}) {
 			f.id = binary.BigEndian.Uint32(p)
 		}
 		got = append(got, f)
+		if sc.SinkStallEvery > 0 && len(got)%sc.SinkStallEvery == 0 {
+			env.Sleep(time.Duration(sc.SinkStallNs)) // a slow NIC: the filter's goroutine is held here
+			env.Fault("slow-nic")
+		}
 	}}
 	tbf, err := vnet.NewTokenBucketFilter(sink, vnet.TBFRate(sc.Rate), vnet.TBFMaxBurst(sc.Burst), vnet.TBFQueueSizeInBytes(sc.Queue))
 	if err != nil {
@@ -167,6 +177,9 @@ func run(env *simrt.Env, sci interface{}) {
 				l = 0
 			}
 			s := &sent{id: nextID, producer: p, payload: payload(nextID, l)}
+			if a.Len == 0 && len(sc.Producers) == 1 {
+				s.payload = []byte{} // a truly empty datagram (no room for an id: matched by position below)
+			}
 			nextID++
 			plans[p] = append(plans[p], s)
 			sents = append(sents, s)
@@ -234,6 +247,37 @@ func run(env *simrt.Env, sci interface{}) {
 	byID := map[uint32]*sent{}
 	for _, s := range sents {
 		byID[s.id] = s
+	}
+	// empty datagrams carry no id (single producer only): walk the forwarded sequence along the
+	// arrival sequence - it has to be a subsequence - and give each empty one the id of the
+	// arrival it stands for
+	if len(sc.Producers) == 1 {
+		ptr := 0
+		for k := range got {
+			if len(got[k].data) != 0 {
+				for j := ptr; j < len(sents); j++ {
+					if sents[j].id == got[k].id {
+						ptr = j + 1
+						break
+					}
+				}
+				continue
+			}
+			found := false
+			for ptr < len(sents) {
+				s := sents[ptr]
+				ptr++
+				if len(s.payload) == 0 {
+					got[k].id, found = s.id, true
+					break
+				}
+			}
+			if !found {
+				env.Fail("C15/reordered", "forwarded item #%d is an empty datagram, but no empty datagram arrived after the arrivals forwarded before it: the forwarded sequence is not an in-order subsequence of the arrivals", k)
+				return
+			}
+			env.Probe("empty-datagram-forwarded")
+		}
 	}
 	seen := map[uint32]bool{}
 	pos := map[uint32]int{}
